@@ -102,7 +102,7 @@ func heavyTerm(t *Term) bool {
 			return false
 		}
 		switch u.Op {
-		case "V", "P", "p10":
+		case "V", "P", "p10", "V2", "P2":
 			heavy = true
 		case "*":
 			n := 0
@@ -243,7 +243,7 @@ func indexTerms(ts []*Term, bound map[string]bool) []*Term {
 			if u.Op == "select" && u.Args[0].Sort != SMem && isWordArray(u.Args[0]) {
 				add(u.Args[1])
 			}
-			if u.Op == "V" {
+			if u.Op == "V" || u.Op == "V2" {
 				add(u.Args[1])
 				add(mkSub(u.Args[2], mkI(1)))
 			}
@@ -386,16 +386,20 @@ func autoAxioms(ts []*Term, fr *frameReg) []*Term {
 		walk(t, func(u *Term) bool {
 			k := u.String()
 			switch u.Op {
-			case "P":
+			case "P", "P2":
 				if seen[k] {
 					return true
 				}
 				seen[k] = true
+				mkPf, B := mkP, B
+				if u.Op == "P2" {
+					mkPf, B = mkP2, mkInt(two64)
+				}
 				out = append(out, mkImp(mkGe(u.Args[0], mkI(0)), mkGe(u, mkI(1))))
 				out = append(out, mkImp(mkEq(u.Args[0], mkI(0)), mkEq(u, mkI(1))))
 				out = append(out, mkImp(mkEq(u.Args[0], mkI(1)), mkEq(u, B)))
 				for kk := int64(2); kk <= 4; kk++ {
-					out = append(out, mkImp(mkEq(u.Args[0], mkI(kk)), mkEq(u, mkP(mkI(kk)))))
+					out = append(out, mkImp(mkEq(u.Args[0], mkI(kk)), mkEq(u, mkPf(mkI(kk)))))
 				}
 			case "p10":
 				if seen[k] {
@@ -409,11 +413,15 @@ func autoAxioms(ts []*Term, fr *frameReg) []*Term {
 				}
 				cs = append(cs, mkImp(mkGe(u.Args[0], mkI(0)), mkGe(u, mkI(1))))
 				out = append(out, mkAnd(cs...))
-			case "V":
+			case "V", "V2":
 				if seen[k] {
 					return true
 				}
 				seen[k] = true
+				mkV, mkP, B := mkV, mkP, B
+				if u.Op == "V2" {
+					mkV, mkP, B = mkV2, mkP2, mkInt(two64)
+				}
 				m, lo, hi := u.Args[0], u.Args[1], u.Args[2]
 				out = append(out, mkImp(mkLe(hi, lo), mkEq(u, mkI(0))))
 				// one word
